@@ -48,6 +48,8 @@ def shared_writes_before(cx: Cx, p: Path, upto: Event = None) -> List[str]:
         if e.kind == 'store' and e.data.get('shared'):
             out.append(f"{e.data.get('store')} on {e.data.get('loc') or e.data.get('target')!r} at line {e.line}")
         elif e.kind == 'call' and e.data.get('target_kind') == 'pkg' and not e.data.get('inlined'):
+            if upto is not None and upto.kind == 'raise' and not upto.data.get('direct') and e.node is upto.node:
+                continue      # the raising callee itself: its own writes-before-raise are in upto.data['callee_writes']
             ws = cx.effects.call_writes(e)
             if ws:
                 w, chain = ws[0]
@@ -287,3 +289,181 @@ def classify_iterable(it: Term, q: Term) -> str:
         if it.fn == 'slice':
             return 'other'
     return 'other'
+
+
+# ---------------------------------------------------------------------------------------------- keyed containers
+def _stores_on(p: Path, loc) -> List[Event]:
+    return [e for e in p.events if e.kind == 'store' and e.data.get('loc') == loc]
+
+
+def check_keyed_insert(cx: Cx, fn_q: str, loc, container: Term, key: Term, value: Term, rule='R-DISC', what=None, unroll=1):
+    """Every non-raising CFG path of fn stores container[key] = value exactly once, under `key not in container`."""
+    fn = cx.fn(fn_q)
+    what = what or f"{loc[1]}[{key!r}] = {value!r}"
+    n = 0
+    for p in cx.walker.paths(fn, WalkOptions(unroll=unroll)):
+        if p.end == 'raise':
+            continue
+        n += 1
+        st = _stores_on(p, loc)
+        good = [e for e in st if e.data.get('store') == 'setitem' and strip_versions(e.data.get('target')) == container
+                and e.data.get('key') == key and e.data.get('value') == value]
+        if len(st) != 1 or len(good) != 1:
+            cx.violation(rule, fn.qualname, f"stores-{loc[1]}-once-keyed",
+                         f"{fn.qualname}: a success path must perform exactly the store {what}; found "
+                         f"{[(e.data.get('store'), repr(e.data.get('key')), repr(e.data.get('value'))) for e in st]}",
+                         where=cx.where(fn, st[0].line if st else None), path=p.lines())
+            continue
+        guard = f_not(AIn(key, container))
+        if implies(p.cond, guard) is not None:
+            cx.violation(rule, fn.qualname, f"{loc[1]}-store-dominated-by-absence-test",
+                         f"{fn.qualname}: the store {what} is not dominated by the test that the key is absent "
+                         f"(path condition {p.cond!r}): an existing entry can be overwritten", where=cx.where(fn, good[0].line),
+                         path=p.lines())
+            continue
+        cx.ok(rule, f"{fn.qualname}: {what} exactly once under absence test", where=cx.where(fn, good[0].line),
+              function=fn.qualname, path=p.lines())
+    if n == 0:
+        cx.inconclusive(rule, fn.qualname, 'no success path found', where=cx.where(fn), function=fn.qualname)
+
+
+def check_keyed_delete(cx: Cx, fn_q: str, loc, container: Term, key: Term, rule='R-DISC', unroll=1):
+    """Every non-raising CFG path of fn deletes container[key] exactly once, under `key in container`."""
+    fn = cx.fn(fn_q)
+    n = 0
+    for p in cx.walker.paths(fn, WalkOptions(unroll=unroll)):
+        if p.end == 'raise':
+            continue
+        n += 1
+        st = _stores_on(p, loc)
+        good = [e for e in st if e.data.get('store') in ('delitem', 'pop') and strip_versions(e.data.get('target')) == container
+                and e.data.get('key') == key]
+        if len(st) != 1 or len(good) != 1:
+            cx.violation(rule, fn.qualname, f"deletes-{loc[1]}-entry-once",
+                         f"{fn.qualname}: a success path must delete exactly {loc[1]}[{key!r}]; found "
+                         f"{[(e.data.get('store'), repr(e.data.get('key'))) for e in st]}",
+                         where=cx.where(fn, st[0].line if st else None), path=p.lines())
+            continue
+        if implies(p.cond, AIn(key, container)) is not None:
+            cx.violation(rule, fn.qualname, f"{loc[1]}-delete-dominated-by-presence-test",
+                         f"{fn.qualname}: the delete of {loc[1]}[{key!r}] is not dominated by the presence test",
+                         where=cx.where(fn, good[0].line), path=p.lines())
+            continue
+        cx.ok(rule, f"{fn.qualname}: delete {loc[1]}[{key!r}] exactly once under presence test",
+              where=cx.where(fn, good[0].line), function=fn.qualname, path=p.lines())
+    if n == 0:
+        cx.inconclusive(rule, fn.qualname, 'no success path found', where=cx.where(fn), function=fn.qualname)
+
+
+def check_lookup(cx: Cx, fn_q: str, container: Term, key: Term, exc: str, throw: str = 'throw_error', rule='R-GUARD'):
+    """get-style accessor: present -> container[key]; absent and throw -> exc; absent and not throw -> None."""
+    fn = cx.fn(fn_q)
+    present = AIn(key, container)
+    t = ATruthy(Sym(throw))
+    ok = True
+    seen = set()
+    for p in cx.walker.paths(fn, WalkOptions(unroll=1)):
+        c = p.cond
+        if implies(c, present) is None:
+            seen.add('present')
+            v = p.last.data.get('value') if p.end == 'return' else None
+            if not (isinstance(v, Sub) and strip_versions(v.base) == container and v.index == key):
+                cx.violation(rule, fn.qualname, 'present-returns-the-entry',
+                             f"{fn.qualname}: on the present branch returns {v!r}, not the entry for the key",
+                             where=cx.where(fn, p.last.line if p.last else None))
+                ok = False
+        elif implies(c, f_not(present)) is None:
+            if implies(c, t) is None:
+                seen.add('absent-throw')
+                if not (p.end == 'raise' and p.last.data.get('exc') == exc):
+                    cx.violation(rule, fn.qualname, f"absent-and-strict-raises-{exc}",
+                                 f"{fn.qualname}: absent key with {throw} set must raise {exc}", where=cx.where(fn))
+                    ok = False
+            elif implies(c, f_not(t)) is None:
+                seen.add('absent-quiet')
+                v = p.last.data.get('value') if p.end == 'return' else (Const(None) if p.end == 'fall' else '?')
+                if v != Const(None):
+                    cx.violation(rule, fn.qualname, 'absent-and-lenient-returns-None',
+                                 f"{fn.qualname}: absent key without {throw} must return None, found {v!r} / {p.end}",
+                                 where=cx.where(fn, p.last.line if p.last else None))
+                    ok = False
+            else:
+                cx.inconclusive(rule, fn.qualname, f"absent branch does not decide on {throw}", where=cx.where(fn), function=fn.qualname)
+                ok = False
+        else:
+            cx.inconclusive(rule, fn.qualname, f"a path does not test {present!r}", where=cx.where(fn), function=fn.qualname)
+            ok = False
+    if ok and seen == {'present', 'absent-throw', 'absent-quiet'}:
+        cx.ok(rule, f"{fn.qualname}: entry / {exc} / None on the three branches", where=cx.where(fn), function=fn.qualname)
+    elif ok:
+        cx.inconclusive(rule, fn.qualname, f"lookup branches found: {sorted(seen)}", where=cx.where(fn), function=fn.qualname)
+
+
+# ---------------------------------------------------------------------------------------------- purity / iteration
+def check_pure(cx: Cx, fn_q: str, rule='R-PURE'):
+    fn = cx.fn(fn_q)
+    ws = cx.effects.trans_writes(fn)
+    if ws:
+        w, chain = ws[0]
+        cx.violation(rule, fn.qualname, 'observer-writes-shared-state',
+                     f"{fn.qualname} is an observer but can write {w.loc} ({w.kind} at {w.where} via {' -> '.join(chain)})",
+                     where=cx.where(fn))
+    else:
+        cx.ok(rule, f"{fn.qualname} writes no shared state (transitively)", where=cx.where(fn), function=fn.qualname)
+
+
+def iteration_sources(p: Path) -> List[Tuple[Term, int]]:
+    """All (iterable term, line) pairs of loops and comprehensions evaluated on path p."""
+    out = []
+
+    def visit(t):
+        if isinstance(t, Fresh):
+            if t.detail is not None:
+                for tgt, it, conds in t.detail.gens:
+                    out.append((it, t.site))
+                    visit(it)
+                visit(t.detail.elt)
+            for x in t.items:
+                visit(x)
+        elif isinstance(t, App):
+            for x in t.args:
+                visit(x)
+        elif isinstance(t, TupleT):
+            for x in t.items:
+                visit(x)
+    for e in p.events:
+        if e.kind == 'loop' and e.data.get('iter') is not None:
+            out.append((e.data['iter'], e.line))
+            visit(e.data['iter'])
+        elif e.kind in ('assign', 'return'):
+            v = e.data.get('value')
+            if v is not None:
+                visit(v)
+        elif e.kind == 'store':
+            v = e.data.get('value')
+            if v is not None:
+                visit(v)
+    return out
+
+
+def order_class(it: Term, base: Term) -> str:
+    """How an iterable relates to the insertion-ordered container `base`: 'inorder' | 'reordered' | 'unrelated'."""
+    it = strip_versions(it)
+    if it == base:
+        return 'inorder'
+    if isinstance(it, App) and it.fn in ('.values', '.keys', '.items') and strip_versions(it.args[0]) == base:
+        return 'inorder'
+    if isinstance(it, App) and it.fn in ('enumerate',) and it.args:
+        return order_class(it.args[0], base)
+    if isinstance(it, Fresh) and it.kind in ('call:list', 'call:tuple', 'copy') and it.items:
+        return order_class(it.items[0], base)
+    if isinstance(it, App) and it.fn == 'reversed' and it.args and order_class(it.args[0], base) != 'unrelated':
+        return 'reordered'
+    if isinstance(it, Fresh) and it.kind in ('call:sorted', 'call:set', 'call:frozenset') and it.items and \
+            order_class(it.items[0], base) != 'unrelated':
+        return 'reordered'
+    if isinstance(it, Fresh) and it.kind in ('listcomp', 'gen') and it.detail is not None and it.detail.gens:
+        return order_class(it.detail.gens[0][1], base)
+    if isinstance(it, App) and it.fn == 'slice' and it.args and order_class(it.args[0], base) != 'unrelated':
+        return 'reordered'
+    return 'unrelated'
